@@ -232,6 +232,8 @@ VARIANTS = [
     V("twin: maybe_promote tests floats after the integers", ("C11",), "", "xrdtypes.py", '    if np.issubdtype(dtype, np.floating):\n        fill_value = np.nan\n    elif np.issubdtype(dtype, np.timedelta64):\n        # See https://github.com/numpy/numpy/issues/10685\n        # np.timedelta64 is a subclass of np.integer\n        # Check np.timedelta64 before np.integer\n        fill_value = np.timedelta64("NaT")\n    elif np.issubdtype(dtype, np.integer):\n        dtype = np.float32 if dtype.itemsize <= 2 else np.float64\n        fill_value = np.nan\n', '    if np.issubdtype(dtype, np.timedelta64):\n        fill_value = np.timedelta64("NaT")\n    elif np.issubdtype(dtype, np.integer):\n        dtype = np.float32 if dtype.itemsize <= 2 else np.float64\n        fill_value = np.nan\n    elif np.issubdtype(dtype, np.floating):\n        fill_value = np.nan\n', expect="silent"),
     V("xarray wrapper drops min_count for non-skipping reductions", ("C05",), "R-PASSTHROUGH[options]", "xarray.py", '                func = f"nan{func}"\n\n        result, *groups = groupby_reduce(array, *by, func=func, **kwargs)', '                func = f"nan{func}"\n        elif kwargs.get("min_count") is not None:\n            kwargs["min_count"] = None\n\n        result, *groups = groupby_reduce(array, *by, func=func, **kwargs)', must_mention="min_count"),
     V("token drops the engine", ("C14",), "R-TOKEN", "core.py", 'tokenize(array, by, agg, expected_groups, axis, method, sort, engine)', 'tokenize(array, by, agg, expected_groups, axis, method, sort)', must_mention="engine"),
+    V("bins closed on neither side binned like left-closed ones", ("C07",), "R-CLOSEDSIDE", "core.py", '            if expect.closed == "neither":\n                # open on both sides: a label that sits on an edge belongs to no bin (like pandas.cut)\n                idx[np.isin(flat, bins)] = -1\n', '', must_mention="neither"),
+    V("datetime edges viewed as integers, labels handed over as they are", ("C07",), "R-CLOSEDSIDE", "core.py", '                idx = np.digitize(flat.view(np.int64), bins=bins.view(np.int64), right=right)', '                idx = np.digitize(flat, bins=bins.view(np.int64), right=right)', must_mention="representation"),
     V("dtype promotion memoised with an untyped key", ("C14",), "R-MEMO", "xrdtypes.py", '        dtype = np.result_type(dtype, fill_value)\n    return dtype\n',
       '        dtype = _promote_for_fill_value(dtype, fill_value)\n    return dtype\n\n\n@functools.lru_cache\ndef _promote_for_fill_value(dtype: np.dtype, fill_value) -> np.dtype:\n    return np.result_type(dtype, fill_value)\n', must_mention="typed"),
     V("twin: dtype promotion memoised with typed=True", ("C14",), "", "xrdtypes.py", '        dtype = np.result_type(dtype, fill_value)\n    return dtype\n',
